@@ -7,7 +7,7 @@ CHECKS = {
    note="Integer amd64 kernels only; fp448 squarings are attempted but unknown (tier=deep, not claimed); ladderStep/diffAdd/double, fourq, p384, csidh, sidh assembly, all AVX2/NEON code and arm64 are not covered; bit-identity of whole-primitive outputs across builds follows only for operations that canonicalise (ToBytes/Modp/IsZero).",
    ref="§4 C14"),
  "C18": dict(
-   text="EMSA-PSS of the real blind-RSA code decided against RFC 8017 9.1.1/9.1.2 (what crypto/rsa.VerifyPSS implements) for EVERY encoded message (emBits mod 8 in {7,0,1}; data block of 34, 35 and exactly 64 bytes), encode byte for byte and encode-then-verify, real mgf1XOR; range checks: the PSS verifier and Finalize refuse signatures / blind signatures that are not below the modulus for every byte string (exponentiation and encoding check replaced by their most permissive behaviour).",
+   text="EMSA-PSS of the real blind-RSA code decided against RFC 8017 9.1.1/9.1.2 (what crypto/rsa.VerifyPSS implements) for EVERY encoded message (emBits mod 8 in {7,0,1}; data block of 34, 35 and exactly 64 bytes), encode byte for byte and encode-then-verify, real mgf1XOR; salt length given as PSSSaltLengthAuto (what the zero-salt variants pass) accepts exactly the EMs consistent for some salt length 0..emLen-hLen-2, incl. the maximal salt with an empty padding string (emBits 535; 536, 537 thorough); range checks: the PSS verifier and Finalize refuse signatures / blind signatures that are not below the modulus for every byte string (exponentiation and encoding check replaced by their most permissive behaviour).",
    note="Hash function is an uninterpreted function of its input bytes; toy moduli so that every byte is symbolic; RSA exponentiation, blinding algebra and the partially-blind key derivation are not covered (metadata aliasing of the latter is decided under C11).",
    ref="§4 C18"),
  "C20": dict(
@@ -15,8 +15,8 @@ CHECKS = {
    note="Pairing-based encapsulation/decapsulation algebra and the policy-language parser are not covered; larger formulas outside the bound.",
    ref="§4 C20"),
  "C16": dict(
-   text="DLEQ proofs (zk/dleq) over an abstract group whose scalars are SMT reals: honest proofs verify for every key / randomness / batch (1, 2), altered components are refused unless the transcript hash collides; zk/qndleq: honest proof verifies and degenerate proofs are refused for every challenge value; OPRF Finalize hash input equals the RFC 9497 framing byte for byte (recorder hash) for every mode and input/info/element incl. empty info; NIST-curve scalar decoding is canonical (known finding: values >= N accepted). OPRF finalisation does not modify the stored blinds (finalising twice gives the same outputs). An evaluation whose proof is missing is refused with an error (no panic).",
-   note="Hash, hash-to-scalar and element encoding are uninterpreted functions; qndleq with a concrete 64-bit modulus; OPRF blinding algebra, Schnorr (zk/dl) and OT are not covered; two known findings are listed in known_findings.json (qndleq security parameter taken from the proof; non-canonical P-curve scalars).",
+   text="DLEQ proofs (zk/dleq) over an abstract group whose scalars are SMT reals: honest proofs verify for every key / randomness / batch (1, 2), altered components are refused unless the transcript hash collides; zk/qndleq: honest proof verifies and degenerate proofs are refused for every challenge value; OPRF Finalize hash input equals the RFC 9497 framing byte for byte (recorder hash) for every mode and input/info/element incl. empty info; NIST-curve scalar decoding is canonical (known finding: values >= N accepted). OPRF finalisation does not modify the stored blinds (finalising twice gives the same outputs). An evaluation whose proof is missing is refused with an error (no panic). Schnorr proofs of knowledge (zk/dl, RFC 8235): honest proofs verify for every witness, base, commitment randomness and context strings (0..2 bytes, 0..5 thorough); a proof with an altered base, statement element, commitment, response, user identifier or other-info string (also a byte moved between the two strings) is refused, under the random-oracle assumptions listed in the evidence.",
+   note="Hash, hash-to-scalar and element encoding are uninterpreted functions; qndleq with a concrete 64-bit modulus; OT (ot/simot) is not covered; Schnorr soundness assumes away the 1/q event that the challenge of a new transcript hits the one value satisfying the verification equation; two known findings are listed in known_findings.json (qndleq security parameter taken from the proof; non-canonical P-curve scalars).",
    ref="§4 C16"),
  "C17": dict(
    text="Shamir/Feldman secret sharing (secretsharing + math/polynomial real generic code) over an abstract field (SMT reals, z3 nlsat): t = 1, 2 (3 thorough), every secret / coefficients / distinct non-zero identifiers: t+1 shares recover the secret, t or fewer are refused, dealt shares verify, altered ones do not; threshold RSA: the integer Lagrange coefficient computeLambda is exact (lambda*den == Delta*num) for every set of k distinct players out of l (l=5,k=2,3; l=7,k=4 thorough), decided on the real math/big code with symbolic player indices; computePolynomial = exact integer polynomial (k = 14, player indices up to 30, powers beyond 2^63); CombineSignShares raises exactly the shares it multiplies in to |2*lambda(T,0,j)| of one set T of >= k players (three shares of a (5,2) sharing, arbitrary distinct indices, modular exponentiation recorded). Signing (blinded or not) leaves the share and its cached exponent 2*Delta*s_i unchanged.",
@@ -27,8 +27,8 @@ CHECKS = {
    note="Glue level: K-PKE Enc/Dec, Frodo matrix products / sampler (memo functions), X25519 ladder and Keccak-p are uninterpreted; sponge, compare, selector, copy are real code; other hybrids and HPKE KEMs not covered; counterexamples are model-level.",
    ref="§4 C01"),
  "C09": dict(
-   text="Canonical decoding decided by SMT for every input string: Ed25519 and Ed448-Goldilocks point decoding for whatever the square-root routine returns (range check sees the masked y, decoded x = +-root, reduced x has the encoded sign, x=0/sign=1 refused), isLessThan(y,p) = integer comparison, goldilocks.FromBytes unused bits, BLS12-381 G1/G2.SetBytes hand exactly the coordinate bytes to the field decoder (flag bits only), infinity/uncompressed flag rules, FourQ Fp/Fq decoding re-serialises identically (p refused), ML-KEM encapsulation-key modulus check (k=2,3,4).",
-   note="Square roots, on-curve and subgroup tests are free values / uninterpreted (their mathematics is outside the technique); BLS field range check itself, FourQ point sign rule, NIST-curve and ristretto decoders not covered.",
+   text="Canonical decoding decided by SMT for every input string: Ed25519 and Ed448-Goldilocks point decoding for whatever the square-root routine returns (range check sees the masked y, decoded x = +-root, reduced x has the encoded sign, x=0/sign=1 refused), isLessThan(y,p) = integer comparison, goldilocks.FromBytes unused bits, BLS12-381 G1/G2.SetBytes hand exactly the coordinate bytes to the field decoder (flag bits only), infinity/uncompressed flag rules, FourQ Fp/Fq decoding re-serialises identically (p refused), FourQ Point.Unmarshal accepted encodings re-serialise to the parsed bytes for whatever root fqSqrt returns within its sign contract (x = 0 with the sign bit set refused) and leave the input buffer unchanged, ML-KEM encapsulation-key modulus check (k=2,3,4).",
+   note="Square roots, on-curve and subgroup tests are free values / uninterpreted (their mathematics is outside the technique); the FourQ square root itself (fqSqrt) is a contract stub; NIST-curve and ristretto decoders not covered.",
    ref="§4 C09"),
  "C11": dict(
    text="Histories: decode-into-used = decode-into-fresh (csidh keys, Goldilocks scalars, tss/rsa key shares, oprf private keys), operands unchanged (csidh DeriveSecret, Goldilocks scalar multiplications, partially-blind-RSA metadata buffer), P-curve Generator() independent of earlier results. Schedules: two goroutines, thread A suspended after each of its first 30 stores in turn, B runs to completion, A resumes, with sync.Mutex/Once modelled and a happens-before race detector: first Public()/PublicKey() of hpke X25519/X448, BLS, oprf keys, tss/rsa cached exponent vs MarshalBinary, marshalling a shared P-curve element. RFC 9380 expanders leave the backing array of the domain-separation tag untouched (tag = window of a larger buffer).",
@@ -63,8 +63,8 @@ CHECKS = {
    note="Bounds: hint switch-over points <= 1 (quick) / <= 2 (thorough); signing loop <= 2 iterations with arithmetic callees as no-ops (data flow between them not checked); SHAKE uninterpreted; NTT / end-to-end bytes for all seeds outside the technique.",
    ref="§4 C04"),
  "C07": dict(
-   text="RFC 9180 §5.1 VerifyPSKInputs: the real verifyPSKInputs decided for all four modes (symbolic mode byte) and all presence combinations of psk / psk_id.",
-   note="Only the PSK-input rule so far; key-schedule transcripts need the hash model (planned).",
+   text="RFC 9180 §5.1 VerifyPSKInputs: the real verifyPSKInputs decided for all four modes (symbolic mode byte) and all presence combinations of psk / psk_id; LabeledExtract / LabeledExpand framing incl. the suite_id (HKDF recorder); Seal/Open nonce and counter step; Sender.Setup hands the KEM exactly the first Nsk bytes of the randomness stream whatever the reader's chunking (chunk sizes 1..Nsk+8) and fails, releasing no context, when the stream ends early.",
+   note="KEM, HKDF and AEAD are uninterpreted / recorders; whole key-schedule transcripts for every suite are not covered.",
    ref="§4 C07"),
  "C03": dict(
    text="Bounded symbolic model checking of the real Kyber/ML-KEM arithmetic and codec code: barrettReduce/csubq/montReduce/toMont over their entire (documented) domains, CompressTo/Decompress for d in {1,4,5,10,11} and Pack/Unpack on whole symbolic polynomials against FIPS 203 Compress_d/Decompress_d/ByteEncode_d written with exact division and bit-by-bit packing.",
